@@ -18,6 +18,9 @@ statement.  Any raw operator that is new, gone or changed in a modelled function
 "unparsed" (=> `./check C20` prints VIOLATION ... no-failing-input-found naming the site): the
 model no longer provably covers the arithmetic of that function.
 
+A table entry may carry "body": the whole normalised body text is then tied as well (used for small
+functions whose guard is a comparison or a cast rather than a raw operator, e.g. op_sds).
+
 `as` casts are not operators here.  --init prints a fresh table (treatments empty) to stdout.
 Nothing is written to --out (the inventory is data for this comparison only).
 """
@@ -228,7 +231,7 @@ def inventory(repo, wanted):
             ops, calls = ops_of(st)
             if ops or calls:
                 sites.append([st, " ".join(ops), " ".join(calls)])
-        inv[key] = {"signature": sig, "sites": sites}
+        inv[key] = {"signature": sig, "sites": sites, "body": " ".join(body.split())}
     return inv, problems
 
 
@@ -251,6 +254,9 @@ def main():
             e2 = {"file": e["file"], "qual": e.get("qual", ""), "fn": e["fn"], "kernel": e.get("kernel", ""),
                   "signature": cur["signature"],
                   "sites": [s + [old.get((s[0], s[1], s[2]), "")] for s in cur["sites"]]}
+            if "body" in e:
+                # whole-body tie (functions whose guards are comparisons / casts, not raw operators)
+                e2["body"] = cur.get("body", "")
             out["functions"].append(e2)
         print(json.dumps(out, indent=1))
         return 0
@@ -264,6 +270,8 @@ def main():
         cur = inv[key]
         if cur["signature"] != e.get("signature", ""):
             unparsed.append(f"{key}: signature changed: `{cur['signature']}` (table: `{e.get('signature', '')}`)")
+        if "body" in e and cur.get("body") != e["body"]:
+            unparsed.append(f"{key}: body of a function tied as a whole changed: `{cur.get('body')}` (table: `{e['body']}`)")
         want = [(s[0], s[1], s[2]) for s in e.get("sites", [])]
         have = [tuple(s) for s in cur["sites"]]
         for s in have:
